@@ -59,9 +59,13 @@ def sample_of(job, k=0):
 # kinds and C05 the temporary block source: their checks run the temp driver too and report its overlap / content /
 # block-return guards; C03 runs fallback compositions (try_ functions never throw, never grow); C05 runs the deeply
 # tracked library allocators (every block goes back to the source)
-ALSO_RULES_OF = {"C05": ("C16", "C14/AllFreedAtExit", "C14/ShrinkRequestReturnsBlocks", "C14/BlocksKeptForReuse", "C09/UpstreamBlocksReturnedAtEnd"), "C12": ("C01", "C03"),
-                 "C06": ("C01",), "C07": ("C01",), "C03": ("C01",),
-                 "C01": ("C14/TemporaryMemoryDisjoint", "C14/ContentIntactUntilScopeEnds", "C14/NoTwoLiveThreadsShareAStack",
+# ... and C02 ("non-null memory of the full size") reports a throwing function that returned null; C01 ("inside
+# owned memory") a fixed storage that was overrun; C03 names joint memory among the fixed sources: its check runs the
+# joint-memory exhaustion scenarios of the construct driver and reports writes outside the joint block
+ALSO_RULES_OF = {"C02": ("C03/ThrowingNeverNull",),
+                 "C05": ("C16", "C14/AllFreedAtExit", "C14/ShrinkRequestReturnsBlocks", "C14/BlocksKeptForReuse", "C09/UpstreamBlocksReturnedAtEnd"), "C12": ("C01", "C03"),
+                 "C06": ("C01",), "C07": ("C01",), "C03": ("C01", "C11/NoWriteOutsideBlock", "C11/PieceAfterObjectInsideBlock"),
+                 "C01": ("C03/FixedStorageNeverOverrun", "C14/TemporaryMemoryDisjoint", "C14/ContentIntactUntilScopeEnds", "C14/NoTwoLiveThreadsShareAStack",
                          "C14/CasResultAsModel", "C14/HeldStackMarkedInUse")}
 
 
@@ -166,6 +170,11 @@ def run_seq_property(prop, tier, seed):
     if prop in ("C03", "C05"):
         from . import plans_compose
         jobs += plans_compose.extra_jobs(prop, tier, seed)
+    if prop == "C03":
+        # joint memory is one of the fixed sources C03 names: exact fit, one byte / one element short, the
+        # element-by-element range constructor running out (driver `construct`, contract ConstructTrace)
+        from . import plans_construct
+        jobs += plans_construct.jobs_c03(prop, tier, seed)
     if prop == "C18":      # the table part: min_block_size suffices (driver `tables`, contract TablesTrace)
         from . import plans_tables
         jobs += plans_tables.jobs("C18", tier, seed)
